@@ -1088,6 +1088,41 @@ pub fn run_state_case(spec: &Spec, out: &mut dyn Write) -> GeomOut {
                     "the state is scored {:?} although copy {} and copy {} translated by ({},{}) cells overlap by {:e} (cell a={:?} b={:?} angle={:?})",
                     score.unwrap(), worst_at.0, worst_at.1, worst_at.2, worst_at.3, -worst, a, b, angle));
             }
+            // ... nor may the placements the state itself yields overlap (they are what is written and drawn), should they
+            // differ from the copies the group requires
+            let differs = cart.len() != ocart.len() || cart.iter().zip(ocart.iter()).any(|(x, y)| x.iter().zip(y.iter()).any(|(u, v)| (u - v).abs() > 1e-9 * (1. + v.abs())));
+            if score.is_some() && differs && !(worst < -1e-9) {
+                let mut w2: f64 = f64::INFINITY;
+                let mut at2 = (0usize, 0usize, 0i64, 0i64);
+                for (i, p) in cart.iter().enumerate() {
+                    for (j, q) in cart.iter().enumerate() {
+                        for nn in -kstar..=kstar {
+                            for mm in -kstar..=kstar {
+                                if nn == 0 && mm == 0 && j <= i {
+                                    continue;
+                                }
+                                let mut qq = *q;
+                                qq[2] += nn as f64 * ax + mm as f64 * bx;
+                                qq[5] += mm as f64 * by;
+                                if (p[2] - qq[2]).powi(2) + (p[5] - qq[5]).powi(2) > (2. * radius + 1e-6).powi(2) {
+                                    continue;
+                                }
+                                if let Some(sep) = separation(&items, p, &qq) {
+                                    if sep < w2 {
+                                        w2 = sep;
+                                        at2 = (i, j, nn, mm);
+                                    }
+                                }
+                            }
+                        }
+                    }
+                }
+                if w2 < -1e-9 {
+                    add(&mut f, "C01", format!(
+                        "the state is scored {:?} although placement {} and placement {} translated by ({},{}) cells, as the state itself yields them, overlap by {:e} (cell a={:?} b={:?} angle={:?})",
+                        score.unwrap(), at2.0, at2.1, at2.2, at2.3, -w2, a, b, angle));
+                }
+            }
             if score.is_none() && worst > 1e-9 && area >= sarea * n as f64 {
                 add(&mut f, "C12", format!(
                     "the state is reported as overlapping although all copies and images are separated by at least {:e}{}", worst,
